@@ -458,6 +458,9 @@ def decide(pid, tier, seed, replay=None):
 
     # (2) implementation side
     suites = cfg.get("suites", [dict(suffix="", comparisons=cfg.get("comparisons", []))])
+    if cfg.get("also_release"):
+        # the same suites against the implementation built without debug assertions (wrapping arithmetic, debug_assert! gone)
+        suites = suites + [dict(s, profile="release") for s in suites if s.get("profile", "debug") == "debug"]
     metas, total_cases = [], 0
     profiles = sorted({s.get("profile", "debug") for s in suites})
     bins = {}
@@ -650,7 +653,8 @@ def setup():
     if not okd:
         print(o[-3000:])
         return 1
-    rels = any(s.get("profile") == "release" for c in P.PROPS.values() for s in c.get("suites", []))
+    rels = any(s.get("profile") == "release" for c in P.PROPS.values() for s in c.get("suites", [])) or \
+        any(c.get("also_release") for c in P.PROPS.values())
     for rel in ([False, True] if rels else [False]):
         okh, o, _ = build_harness(release=rel)
         if not okh:
